@@ -217,6 +217,16 @@ fn excl_and_plan(seed: u64, idx: u64, rep: &mut Report) {
             _ => {}
         }
     }
+    if rng.chance(1, 5) {
+        // what an interrupted delivery leaves behind: `<path>.copia-tmp` on the destination only, its base name in the
+        // source (the planner has no special cases for names)
+        if let Some(p) = src.keys().next().cloned() {
+            let q = format!("{p}.copia-tmp");
+            if !src.contains_key(&q) && !uni.iter().any(|u| u.starts_with(&format!("{q}/"))) {
+                dst.insert(q, (rng.below(3) * 100, 1_600_000_000));
+            }
+        }
+    }
     let to_meta = |m: &BTreeMap<String, (u64, i64)>| -> MetaMap { m.iter().map(|(k, v)| (PathBuf::from(k), FileMeta { size: v.0, mtime: v.1 })).collect() };
     for del in [false, true] {
         let want = ref_plan(&src, &dst, &pats, del);
